@@ -1,2 +1,4 @@
+import Audit.C09
+import Audit.C10
 import Audit.C19
 import Audit.C20
